@@ -324,7 +324,9 @@ pub trait String:
         }
 
         let new_len = self.len() - len;
-        unsafe { self.data_mut()[new_len].write(0) };
+        if new_len < self.capacity() {
+            unsafe { self.data_mut()[new_len].write(0) };
+        }
         unsafe { self.set_len(new_len as u64) };
 
         true
